@@ -66,6 +66,22 @@ def r1_entries(chk: Check) -> None:
         chk.decide(back, "C13.R1", ct, "seeded test replaces the unseeded one", "the seeded wrapper is discarded", ct.loc(s))
         p_ = parent(st) if st is not None else None
         chk.decide(isinstance(p_, ast.If) and unparse(p_.test) == "config.seed is not None", "C13.R1", ct, "seeding guarded only by `config.seed is not None`", f"guard is `{unparse(p_.test) if isinstance(p_, ast.If) else None}`", ct.loc(s))
+    # lost update: hypothesis.seed() also rewrites the test's settings (database=None); create_test reads the settings
+    # attribute, merges, and writes it back at the end - seeding between the read and the write-back would be undone
+    g = cfg_of(ct)
+    reads = [n.id for n in g.live() if n.kind == "stmt" and isinstance(n.ast, ast.Assign) and isinstance(n.ast.value, ast.Call) and dotted(n.ast.value.func) == "getattr"
+             and len(n.ast.value.args) >= 2 and unparse(n.ast.value.args[1]) == "SETTINGS_ATTRIBUTE_NAME"]
+    writes = [n.id for n in g.live() if n.kind == "stmt" and any(dotted(c.func) == "setattr" and len(c.args) == 3 and unparse(c.args[1]) == "SETTINGS_ATTRIBUTE_NAME" for c in calls(n.ast))]
+    seed_nodes = [n for c in seeds for n in g.stmt_nodes_containing(c)]
+    if reads and writes and seed_nodes:
+        between = [n for n in seed_nodes if n in g.reachable_from(reads) and any(w in g.reachable_from([n]) for w in writes)]
+        if between:
+            chk.violation("C13.R1", ct, "seeding precedes the read-modify-write of the test's settings",
+                          "hypothesis.seed(...) is applied after the settings were read and before they are written back: what seed() changed on the settings (it disables the example database) is overwritten, so a failure stored by an earlier run is replayed and the request sequence for the same seed differs between runs", ct.loc(seeds[0]))
+        else:
+            chk.ok("C13.R1", ct, "seeding precedes the read-modify-write of the test's settings", "", ct.loc(seeds[0]))
+    elif seeds:
+        chk.undecided("C13.R1", ct, "seeding precedes the read-modify-write of the test's settings", "settings read / write-back not found", ct.loc())
     wt = P.func("engine/phases/unit/__init__.py:worker_task")
     cfg = [c for c in body_calls(wt) if last_attr(c) == "HypothesisTestConfig"]
     v = kwarg(cfg[0], "seed") if cfg else None
